@@ -13,13 +13,13 @@ def run(r):
     warnings.filterwarnings('ignore')
     thorough = r.tier == 'thorough'
     for model, cfg in (('PREM', 'EarthRel_prem'), ('CMC', 'EarthRel_cmc')):
-        r.model_check('EarthRelMC', cfg + '.cfg', timeout=1500)
+        r.model_check('EarthRelMC', cfg + ('_thorough.cfg' if thorough else '.cfg'), timeout=3000)
         s = tlc.simulate('EarthRelMC', cfg + '_sim.cfg', 'C15/sim_' + model, num=(4000 if thorough else 800), depth=(14 if thorough else 9),
                          seed=r.seed + 15)
         r.transitions += s.generated
         r.replay(None, s.behaviours, 'EarthRel', model, parallel=16, factory=EarthDriver, factory_kw=dict(model=model))
     r.exhaustive = True
-    for op in ('Probe', 'ScaleDir', 'Turn', 'Dip'):
+    for op in ('Probe', 'ScaleDir', 'Turn', 'Dip', 'ToAxis'):
         if not r.actions_seen.get(op):
             raise tlc.TLCError('vacuity guard: op %s never replayed' % op)
     r.assumptions += ['integer radii (metres) at, one below and one above every shell boundary, plus interior and outside points',
